@@ -59,7 +59,12 @@ def strata(tier):
 def _strata_look(tier):
     look = G.strata_grid(modules=('std', 'safe'), algos=('lru', 'inf', 'no'), purges=(False,), families=('noarch', 'memarch', 'persist'), maxsizes=(2, None),
                          shapes=[{'varargs': True}, {'varargs': True, 'varkw': True}], weights={'call': 10, 'dump': 2, 'clear': 1, 'load': 1}, max_ops=10, pool=(2, 4))
-    return [('lookalikes/' + n, s.map(_lookalike_scenario)) for n, s in look] + _strata_sib(tier)
+    # typed raw keys: equal-but-differently-typed values swapped between two parameters, called in different call forms
+    twins = G.strata_grid(modules=('std', 'safe'), algos=('lru', 'inf'), purges=(False,), families=('noarch', 'memarch'), maxsizes=(3, None),
+                          shapes=[{'req': ['x', 'y']}, {'req': ['x'], 'opt': [['y', ['i', 1]]]}, {'req': ['x'], 'kwopt': [['s', ['i', 2]]]}],
+                          weights={'call': 10, 'dump': 1, 'clear': 1, 'load': 1}, max_ops=8, pool=(2, 4), default_keymap_pct=0,
+                          kms_filter=lambda k: k['cls'] == 'keymap' and k['typed'] and k['flat'], twin_pct=100)
+    return [('lookalikes/' + n, s.map(_lookalike_scenario)) for n, s in look] + [('twins/' + n, s.map(_twin_scenario)) for n, s in twins] + _strata_sib(tier)
 
 
 def _strata_sib(tier):
@@ -187,7 +192,7 @@ def run_case(case):
         return run_pair(case)
     tr = H.run_history(case)
     discrs, ev, flags = check_trace(case, tr)
-    classes = base_classes(case) + [k for k, v in flags.items() if v] + (['lookalike_pair'] if case.get('lookalike_pair') else [])
+    classes = base_classes(case) + [k for k, v in flags.items() if v] + (['lookalike_pair'] if case.get('lookalike_pair') else []) + (['twin_pair'] if case.get('twin_pair') else [])
     nt = None
     if flags['load'] or flags['hit_after_eviction']:
         km = case.get('keymap')
@@ -195,6 +200,6 @@ def run_case(case):
     return discrs, nt, sorted(set(classes))
 
 
-REQUIRED_CLASSES = ['two_functions', 'pair_load', 'lookalike_pair', 'load', 'hit_after_eviction', 'second_spelling_hit', 'module:safe', 'eff_algo:no', 'eff_algo:inf', 'eff_algo:mru',
+REQUIRED_CLASSES = ['twin_pair', 'two_functions', 'pair_load', 'lookalike_pair', 'load', 'hit_after_eviction', 'second_spelling_hit', 'module:safe', 'eff_algo:no', 'eff_algo:inf', 'eff_algo:mru',
                     'eff_algo:lfu', 'eff_algo:rr', 'keymap:default']
 TRIGGERS = {}
